@@ -76,7 +76,12 @@ class C13(Check):
         else:
             cfg = ES.gen_cell_cfg(r, tier)
             cfg["max_leaves"] = 10 ** 6
-        cfg.update(strategy=strategy, estimator="real", recalc=None, max_points=10 ** 6, nnoise=r.choice([1, 1, 2, 3]), jump=False)
+        # frequent from-scratch recalculation (skip_fast_path) in a share of the runs: point counts must stay truthful across it
+        cfg.update(strategy=strategy, estimator="real", recalc=(r.choice([1, 2, 3, 5]) if (strategy != "cell" and r.random() < 0.3) else None),
+                   max_points=10 ** 6, nnoise=r.choice([1, 1, 2, 3]), jump=False)
+        # (global grid families other than the trapezoidal one are not drawn here: the quantifier of this property does not range
+        # over grid types, and GlobalHighOrderGrid without boundary points evaluates the integrand at zero-weight points in the
+        # surplus computation before they are ever counted - noted in DESIGN.md 9.2 as an observation outside the quantifier)
         n = cfg["nnoise"]
         cfg["reference"] = [0.0] * n if r.random() < 0.2 else [r.choice([0.5, -0.3, 2.0, 0.05]) for _ in range(n)]
         tol = r.choice([0.0, 0.05, 0.3, 1.0, 3.0, 50.0])
